@@ -29,6 +29,7 @@ type ReqSpec struct {
 	PadLens          []int `json:"pad_lens,omitempty"`             // padding per DATA frame (cyclic; 0 = PADDED flag with pad length 0; -1 = not padded)
 	UnannouncedTrail bool  `json:"unannounced_trailers,omitempty"` // send the trailer block without a "trailer" request header
 	DeclareLength    bool  `json:"declare_length,omitempty"`       // send content-length
+	EmptyFrames      int   `json:"empty_frames,omitempty"`         // raw HTTP/2: an empty DATA frame (no END_STREAM) behind each of the first n body frames
 }
 
 type Exchange struct {
@@ -158,6 +159,12 @@ func (p *H2Peer) SendH2(streamID uint32, r ReqSpec, prio *Prio) error {
 			return err
 		}
 		rest = rest[n:]
+		if r.EmptyFrames > 0 && !last && frame <= r.EmptyFrames {
+			// an empty DATA frame without END_STREAM between two pieces (a sender flushing an empty buffer): legal
+			if err := p.Fr.WriteData(streamID, false, nil); err != nil {
+				return err
+			}
+		}
 	}
 	if len(r.Trailers) > 0 {
 		var tf [][2]string
